@@ -45,6 +45,12 @@ def plan(tier, seed):
     ]
     for i in range(len(pre) * (20 if tier == "quick" else 300)):
         cases.append({"mode": "live_gate", "seed": seed, "idx": n + i, "cfg": {"n": 1 + (i // len(pre)) % 2, "async": False, "hc": i % 5 == 4}, "prefix": pre[i % len(pre)], "len": (i // len(pre)) % 4})
+    # a backtest ran earlier in the same process; the live instance is entered the way Flumine.run() enters it
+    for i in range(len(pre) * (6 if tier == "quick" else 100)):
+        cases.append({"mode": "live_gate", "seed": seed, "idx": n + 20000 + i, "cfg": {"n": 1, "async": False, "after_backtest": True}, "prefix": pre[i % len(pre)], "len": i % 3})
+    # a cancel refused by the exchange with a code after which the bet is still live: the stake stays at risk and keeps counting
+    for i, code in enumerate(("MARKET_NOT_OPEN_FOR_BETTING", "MARKET_SUSPENDED", "BET_ACTION_ERROR") * (30 if tier == "quick" else 200)):
+        cases.append({"mode": "live_gate", "seed": seed, "idx": n + 10000 + i, "cfg": {"n": 1 + i % 2, "async": False, "cancel_fault": code}, "prefix": [["place", 0], ["resp", 0], ["snap"], ["cancel", 0], ["resp", 0], ["snap"]], "len": i % 3})
     return [{"seed": seed, "idx": 0, "profile": "plain", "directed": "replace"}] + cases[1:]
 
 
